@@ -146,6 +146,31 @@ def hostile_dtd(rnd):
             + f'<!ATTLIST root {a[0]} CDATA #IMPLIED>\n<!ATTLIST root {a[1]} ({"|".join(rnd.sample(XSD_OK, 3))}) #IMPLIED>\n')
 
 
+def hostile_wsdl(rnd):
+    """A document/literal WSDL whose operation, message, part, port type, binding, port, service and element names are
+    hostile NCNames (keywords, case collisions, dots, dashes, non-ASCII)."""
+    op1, op2, req, resp, part, ptype, bind, port, svc, fault = rnd.sample(XSD_OK, 10)
+    tns = "urn:hw"
+    els = "".join(f'<xsd:element name="{n}"><xsd:complexType><xsd:sequence><xsd:element name="{rnd.choice(XSD_OK)}" type="xsd:string"/></xsd:sequence></xsd:complexType></xsd:element>'
+                  for n in dict.fromkeys([req, resp, fault]))
+    def op(n):
+        return (f'<operation name="{n}"><input message="tns:{req}Msg"/><output message="tns:{resp}Msg"/><fault name="{fault}" message="tns:{fault}Msg"/></operation>')
+    def bop(n):
+        return (f'<operation name="{n}"><soap:operation soapAction="urn:hw/{n}"/><input><soap:body use="literal"/></input><output><soap:body use="literal"/></output>'
+                f'<fault name="{fault}"><soap:fault name="{fault}" use="literal"/></fault></operation>')
+    return (
+        f'<definitions xmlns="http://schemas.xmlsoap.org/wsdl/" xmlns:soap="http://schemas.xmlsoap.org/wsdl/soap/" xmlns:tns="{tns}" '
+        f'xmlns:xsd="http://www.w3.org/2001/XMLSchema" targetNamespace="{tns}" name="{svc}">'
+        f'<types><xsd:schema targetNamespace="{tns}" elementFormDefault="qualified">{els}</xsd:schema></types>'
+        f'<message name="{req}Msg"><part name="{part}" element="tns:{req}"/></message>'
+        f'<message name="{resp}Msg"><part name="{part}" element="tns:{resp}"/></message>'
+        f'<message name="{fault}Msg"><part name="{part}" element="tns:{fault}"/></message>'
+        f'<portType name="{ptype}">{op(op1)}{op(op2)}</portType>'
+        f'<binding name="{bind}" type="tns:{ptype}"><soap:binding transport="http://schemas.xmlsoap.org/soap/http" style="document"/>{bop(op1)}{bop(op2)}</binding>'
+        f'<service name="{svc}"><port name="{port}" binding="tns:{bind}"><soap:address location="http://example.com/hw"/></port></service></definitions>'
+    )
+
+
 def option_sets():
     from xsdata.models.config import DocstringStyle, NameCase, StructureStyle
 
@@ -350,9 +375,13 @@ def generation_case(ctx, kind, files, main, oname, opts, mut, traces, tag, must_
         for d, origs in dups:
             tags = ["F28"] if any(needs_safe_prefix(str(o)) for o in origs) else []
             ctx.violation(f"{kind} ({oname}): {d}", {**info, "generated": {k: v[:3000] for k, v in gen.files.items()}, "finding_tags": tags})
+        import re as _re
+
+        shadowed = {m.group(1) for d, origs in dups if any(needs_safe_prefix(str(o)) for o in origs) for m in [_re.search(r"class name '([^']+)'", d)] if m}
         for pr in problems:
-            # the shadowed class makes a compound field see the same type twice: a consequence of the same collision
-            tags = ["F28"] if f28 and "ambiguous types" in pr else []
+            # the shadowed class makes a compound field see the same type twice, or a field annotation resolve to the
+            # class that replaced the one it means (e.g. a WSDL service description): consequences of the same collision
+            tags = ["F28"] if f28 and ("ambiguous types" in pr or any(_re.search(rf"\b{_re.escape(n)}\b", pr) for n in shadowed)) else []
             ctx.violation(f"{kind} ({oname}): {pr}", {**info, "generated": {k: v[:3000] for k, v in gen.files.items()}, "finding_tags": tags})
     finally:
         gen.cleanup()
@@ -521,7 +550,8 @@ def run(ctx):
     osets = option_sets()
     n = ctx.pick(14, 300)
     for k in range(n):
-        for kind, maker, fname in (("xsd", hostile_xsd, "h.xsd"), ("xml-sample", hostile_xml, "h.xml"), ("json-sample", hostile_json, "h.json"), ("dtd", hostile_dtd, "h.dtd")):
+        for kind, maker, fname in (("xsd", hostile_xsd, "h.xsd"), ("xml-sample", hostile_xml, "h.xml"), ("json-sample", hostile_json, "h.json"), ("dtd", hostile_dtd, "h.dtd"),
+                                   ("wsdl", hostile_wsdl, "h.wsdl")):
             src = maker(rnd)
             oname, opts, mut = osets[(k + len(kind)) % len(osets)]
             generation_case(ctx, kind, {fname: src}, [fname], oname, opts, mut, traces, f"{kind}-{k}")
